@@ -498,6 +498,19 @@ func (fr *Frame) backEdge(b, h *ssa.BasicBlock, cond string, st *State) {
 			}
 			senv := fr.specEnv(st, h, over)
 			senv.lookup = func(name string, s2 *State) (Val, bool) {
+				// a loop-carried variable has, at the end of the iteration, the value that flows back to its phi
+				// (an assignment `x = y` of an existing value leaves no trace in the block itself)
+				for _, in := range h.Instrs {
+					p, ok := in.(*ssa.Phi)
+					if !ok {
+						break
+					}
+					if p.Comment == name {
+						if v, ok := over[p]; ok {
+							return v, true
+						}
+					}
+				}
 				if v, ok := fr.lookupLocalAt(name, s2, b, nil); ok {
 					return v, true
 				}
@@ -832,6 +845,7 @@ func (fr *Frame) instr(in ssa.Instruction, b *ssa.BasicBlock, st *State) *State 
 			fr.safety("nil", sNot(sEq(a.Obj, "0")), b, in)
 		}
 		fr.guardedAccess(a, b, in, st, true)
+		fr.storeSiteAsserts(x, v, b, st)
 		return fc.storeVal(st, a, t, v)
 	case *ssa.Phi:
 		return st
@@ -1932,4 +1946,87 @@ func (fc *FnCtx) mapArrs(mt types.Type, ref string) (dom, val string, ks string,
 		fc.regArr(val, "(Array Int (Array "+ks+" "+fc.m.scalarSort(m.Elem())+"))")
 	}
 	return
+}
+
+// storeSiteAsserts: `assert store NAME#k : E` - an assertion at the k-th (in source order) element or field store
+// through the local variable NAME (`NAME[i] = v`, `NAME.f = v`); $v is the value stored. Used where a branch contains
+// no call to hang a call-site assertion on.
+func (fr *Frame) storeSiteAsserts(x *ssa.Store, v Val, b *ssa.BasicBlock, st *State) {
+	fc := fr.fc
+	if !fr.isTop || fc.spec == nil {
+		return
+	}
+	has := false
+	for _, c := range fc.spec.Asserts {
+		if strings.HasPrefix(c.Site, "store ") {
+			has = true
+		}
+	}
+	if !has {
+		return
+	}
+	if fc.storeOrd == nil {
+		// name every store by the local variable its address is derived from, ordinals by source position
+		fc.storeOrd = map[*ssa.Store]string{}
+		names := map[ssa.Value]string{}
+		for _, bb := range fr.fn.Blocks {
+			for _, in := range bb.Instrs {
+				if d, ok := in.(*ssa.DebugRef); ok && d.Object() != nil {
+					if _, isVar := d.Object().(*types.Var); isVar {
+						names[d.X] = d.Object().Name()
+					}
+				}
+			}
+		}
+		type rec struct {
+			s   *ssa.Store
+			pos token.Pos
+			n   string
+		}
+		var all []rec
+		for _, bb := range fr.fn.Blocks {
+			for _, in := range bb.Instrs {
+				s2, ok := in.(*ssa.Store)
+				if !ok {
+					continue
+				}
+				var base ssa.Value
+				switch ad := s2.Addr.(type) {
+				case *ssa.IndexAddr:
+					base = ad.X
+				case *ssa.FieldAddr:
+					base = ad.X
+				}
+				if base == nil {
+					continue
+				}
+				if n, ok := names[base]; ok {
+					all = append(all, rec{s2, s2.Pos(), n})
+				}
+			}
+		}
+		sort.Slice(all, func(i, j int) bool { return all[i].pos < all[j].pos })
+		cnt := map[string]int{}
+		for _, r := range all {
+			cnt[r.n]++
+			fc.storeOrd[r.s] = fmt.Sprintf("store %s#%d", r.n, cnt[r.n])
+		}
+	}
+	site, ok := fc.storeOrd[x]
+	if !ok {
+		return
+	}
+	for _, c := range fc.spec.Asserts {
+		if c.Site != site || !fc.modeOK(c) {
+			continue
+		}
+		cenv := fr.specEnv(st, nil, nil)
+		cenv.localsFirst = true
+		cenv.names["$v"] = v
+		cenv.lookup = func(n string, st2 *State) (Val, bool) { return fr.lookupLocalAt(n, st2, b, x) }
+		f := cenv.bool(c.Expr)
+		fc.addOblig(&Oblig{Name: fmt.Sprintf("%s/assert#%d@%s", fc.spec.Name, c.Ord, strings.ReplaceAll(site, " ", ":")), Kind: "assert", Tags: c.Tags,
+			goal: sImp(fr.reach[b], f), Text: c.Text, Spec: c})
+		c.bound = true
+	}
 }
